@@ -371,3 +371,197 @@ Proof. intros HD. unfold io_delitem. cbn [all_fixed]. apply InvD_io_pop. assumpt
 
 Lemma InvD_io_reverse hpf k s g : InvD hpf s -> InvD hpf (fst (io_reverse k s g)).
 Proof. intros HD. unfold io_reverse. apply InvD_perm; [assumption|]. intros x. apply countb_rev. Qed.
+
+(* ------------------------------------------------------------------ initializers *)
+Lemma name_eqb_eq a b : name_eqb a b = true <-> a = b.
+Proof.
+  destruct a, b; simpl; try (split; [discriminate|congruence]); try tauto;
+    rewrite Nat.eqb_eq; split; congruence.
+Qed.
+Lemma name_eqb_refl a : name_eqb a a = true. Proof. apply name_eqb_eq. reflexivity. Qed.
+Lemma name_eqb_neq a b : name_eqb a b = false <-> a <> b.
+Proof. rewrite <- name_eqb_eq. destruct (name_eqb a b); split; congruence. Qed.
+
+Lemma In_init_put l key v k' x : In (k', x) (init_put l key v) <-> (k' = key /\ x = v) \/ (k' <> key /\ In (k', x) l).
+Proof.
+  induction l as [|[k0 v0] t IH]; simpl.
+  - split; [intros [[= <- <-]|[]]; auto | intros [[-> ->]|[_ []]]; auto].
+  - destruct (name_eqb key k0) eqn:E.
+    + apply name_eqb_eq in E. subst k0. simpl. split.
+      * intros [[= <- <-]|H]; [auto|]. right.
+Abort.
+
+Lemma keys_functional (l : list (name * nat)) k x y : NoDup (map fst l) -> In (k, x) l -> In (k, y) l -> x = y.
+Proof.
+  induction l as [|[k0 v0] t IH]; simpl; [tauto|]. intros Hnd Hx Hy. inversion Hnd; subst.
+  destruct Hx as [[= -> ->]|Hx]; destruct Hy as [[= <-]|Hy]; auto.
+  - exfalso. apply H1. apply (in_map fst) in Hy. exact Hy.
+  - subst. exfalso. apply H1. apply (in_map fst) in Hx. exact Hx.
+Qed.
+
+Lemma init_get_In l k v : init_get l k = Some v -> In (k, v) l.
+Proof.
+  induction l as [|[k0 v0] t IH]; simpl; [discriminate|].
+  destruct (name_eqb k k0) eqn:E; [apply name_eqb_eq in E; subst; intros [= ->]; auto | auto].
+Qed.
+Lemma init_get_None l k : init_get l k = None -> ~ In k (map fst l).
+Proof.
+  induction l as [|[k0 v0] t IH]; simpl; [tauto|].
+  destruct (name_eqb k k0) eqn:E; [discriminate|]. apply name_eqb_neq in E. intros H [H1|H1]; [congruence|].
+  exact (IH H H1).
+Qed.
+Lemma In_init_get l k v : NoDup (map fst l) -> In (k, v) l -> init_get l k = Some v.
+Proof.
+  intros Hnd Hin. destruct (init_get l k) as [w|] eqn:E.
+  - apply init_get_In in E. f_equal. eapply keys_functional; eassumption.
+  - apply init_get_None in E. exfalso. apply E. apply (in_map fst) in Hin. exact Hin.
+Qed.
+
+Lemma In_init_del l key k' x : In (k', x) (init_del l key) <-> k' <> key /\ In (k', x) l.
+Proof.
+  unfold init_del. rewrite filter_In. simpl. rewrite negb_true_iff, name_eqb_neq. intuition congruence.
+Qed.
+Lemma NoDup_keys_filter (f : name * nat -> bool) l : NoDup (map fst l) -> NoDup (map fst (filter f l)).
+Proof.
+  induction l as [|e t IH]; simpl; [auto|]. intros Hnd. inversion Hnd; subst.
+  destruct (f e); simpl; [constructor|]; auto.
+  intros Hin. apply H1. apply in_map_iff in Hin. destruct Hin as [y [Hy Hin]]. apply filter_In in Hin.
+  apply in_map_iff. exists y. tauto.
+Qed.
+
+Lemma init_put_spec l key v : NoDup (map fst l) ->
+  (forall k' x, In (k', x) (init_put l key v) <-> (k' = key /\ x = v) \/ (k' <> key /\ In (k', x) l)) /\
+  NoDup (map fst (init_put l key v)).
+Proof.
+  induction l as [|[k0 v0] t IH]; simpl; intros Hnd.
+  - split; [|constructor; [tauto|constructor]].
+    intros k' x. split; [intros [[= <- <-]|[]]; auto | intros [[-> ->]|[_ []]]; auto].
+  - inversion Hnd; subst. destruct (name_eqb key k0) eqn:E.
+    + apply name_eqb_eq in E. subst k0. split; [|simpl; constructor; assumption].
+      intros k' x. simpl. split.
+      * intros [[= <- <-]|H]; [auto|]. right. split; [|auto]. intros ->. apply H1. apply (in_map fst) in H. exact H.
+      * intros [[-> ->]|[Hne [[= <- <-]|H]]]; [auto|congruence|auto].
+    + apply name_eqb_neq in E. destruct (IH H2) as [Ha Hb]. split.
+      * intros k' x. simpl. rewrite Ha. split.
+        -- intros [[= <- <-]|[H|H]]; [right; split; [congruence|auto] | auto | right; tauto].
+        -- intros [H|[Hne [[= <- <-]|H]]]; [auto|auto|right; right; auto].
+      * simpl. constructor; [|assumption]. intros Hin. apply in_map_iff in Hin. destruct Hin as [[k1 x1] [Hk Hin]].
+        simpl in Hk. subst k1. apply Ha in Hin. destruct Hin as [[-> _]|[_ Hin]]; [congruence|].
+        apply H1. apply (in_map fst) in Hin. exact Hin.
+Qed.
+
+Lemma InvD_set_vname hpf s v nm : InvD hpf s -> vinit s v = false -> InvD hpf (set_vname s v nm).
+Proof.
+  intros HD Hv. pose proof HD as (H4i & H4o & (H5a & H5b & H5c) & H7 & H6).
+  assert (HI4 : forall k', I4 k' (set_vname s v nm)).
+  { intros k'. pose proof (I4_any k' hpf s HD) as [Ha Hb]. split.
+    - intros x g0. autorewrite with rd. apply Ha.
+    - intros g0 x. autorewrite with rd. apply Hb. }
+  split; [apply HI4|]. split; [apply HI4|]. split; [|split].
+  - split; [|split].
+    + intros g0 key x. autorewrite with rd. intros Hin. specialize (H5a _ _ _ Hin).
+      destruct (Nat.eqb_spec v x) as [<-|]; [|assumption]. destruct H5a as (_ & ? & _). congruence.
+    + intros g0. autorewrite with rd. apply H5b.
+    + intros x. autorewrite with rd. intros Hx. destruct (H5c x Hx) as (g0 & key & Hin). exists g0, key.
+      autorewrite with rd. assumption.
+  - intros x. unfold owned. autorewrite with rd. apply H7.
+  - intros x. autorewrite with rd. apply H6.
+Qed.
+
+Lemma InvD_init_unbind hpf s g key v : InvD hpf s -> In (key, v) (inits s g) ->
+  InvD hpf (set_inits (init_disown s v) g (init_del (inits s g) key)).
+Proof.
+  intros HD Hin. pose proof HD as (H4i & H4o & (H5a & H5b & H5c) & H7 & H6).
+  destruct (H5a _ _ _ Hin) as (Hnm & Hvi & Hvg & Hk).
+  unfold init_disown, maybe_release.
+  set (s1 := set_vinit s v false).
+  assert (Hown1 : owned s1 v = flag KIn s v || flag KOut s v).
+  { unfold owned, s1. autorewrite with rd. rewrite Nat.eqb_refl, orb_false_r. reflexivity. }
+  assert (Hent : forall g0 k' x, In (k', x) (inits s g0) -> (g0 = g -> k' <> key) -> x <> v).
+  { intros g0 k' x Hx Hne ->. destruct (H5a _ _ _ Hx) as (Hn2 & _ & Hg2 & _).
+    assert (g0 = g) by congruence. subst g0. apply (Hne eq_refl). congruence. }
+  assert (Hfin : forall sx, (forall y, vname sx y = vname s y) -> (forall y, vinit sx y = if v =? y then false else vinit s y) ->
+      (forall k y, flag k sx y = flag k s y) -> (forall k g0, iol k sx g0 = iol k s g0) ->
+      (forall k g0 y, rc k sx g0 y = rc k s g0 y) -> (forall g0, inits sx g0 = inits s g0) ->
+      (forall y, y <> v -> vgraph sx y = vgraph s y) ->
+      (vgraph sx v = if flag KIn s v || flag KOut s v then Some g else None) ->
+      InvD hpf (set_inits sx g (init_del (inits s g) key))).
+  { intros sx Rn Ri Rf Rl Rr Rt Rg Rgv.
+    assert (HI4 : forall k', I4 k' (set_inits sx g (init_del (inits s g) key))).
+    { intros k'. pose proof (I4_any k' hpf s HD) as [Ha Hb]. split.
+      - intros x g0. autorewrite with rd. rewrite Rf, Rl. destruct (Nat.eq_dec x v) as [->|Hne]; [|rewrite Rg by assumption; apply Ha].
+        rewrite Rgv. rewrite <- Ha. destruct (flag KIn s v || flag KOut s v) eqn:Eo; [rewrite Hvg; tauto|].
+        apply orb_false_iff in Eo. split; [intros [_ H]; discriminate|]. intros [H _]. destruct k', Eo; congruence.
+      - intros g0 x. autorewrite with rd. rewrite Rr, Rl. apply Hb. }
+    split; [apply HI4|]. split; [apply HI4|]. split; [|split].
+    - split; [|split].
+      + intros g0 k' x. autorewrite with rd. rewrite Rn, Ri. destruct (Nat.eqb_spec g g0) as [<-|Hng].
+        * rewrite In_init_del. intros [Hne Hx]. assert (x <> v) by (eapply Hent; eauto).
+          destruct (Nat.eqb_spec v x); [congruence|]. rewrite Rg by assumption. apply H5a. assumption.
+        * rewrite Rt. intros Hx. assert (x <> v) by (eapply Hent; eauto; congruence).
+          destruct (Nat.eqb_spec v x); [congruence|]. rewrite Rg by assumption. apply H5a. assumption.
+      + intros g0. autorewrite with rd. rewrite Rt. destruct (g =? g0); [apply NoDup_keys_filter|]; apply H5b.
+      + intros x. autorewrite with rd. rewrite Ri. destruct (Nat.eqb_spec v x) as [<-|Hne]; [discriminate|].
+        intros Hx. destruct (H5c x Hx) as (g0 & k0 & Hx0). exists g0, k0. autorewrite with rd. rewrite Rt.
+        destruct (Nat.eqb_spec g g0) as [<-|]; [|assumption]. apply In_init_del. split; [|assumption].
+        intros ->. apply Hne. symmetry. eapply keys_functional; [apply H5b| |]; eassumption.
+    - intros x. unfold owned. autorewrite with rd. rewrite !Rf, Ri. destruct (Nat.eqb_spec v x) as [<-|Hne].
+      + rewrite Rgv, orb_false_r. destruct (flag KIn s v || flag KOut s v); split; congruence.
+      + rewrite Rg by congruence. apply H7.
+    - intros x. autorewrite with rd. rewrite Rf, Ri. destruct (Nat.eqb_spec v x) as [Hvx|Hvx]; intros Hx; apply H6.
+      + subst x. destruct Hx; [auto|discriminate].
+      + assumption. }
+  fold s1. destruct (owned s1 v) eqn:Eo; rewrite Hown1 in Eo.
+  - apply Hfin; intros; unfold s1; autorewrite with rd; try reflexivity. rewrite Eo. assumption.
+  - apply Hfin; intros; unfold s1; autorewrite with rd; try reflexivity.
+    + destruct (Nat.eqb_spec v y); [congruence|reflexivity].
+    + rewrite Nat.eqb_refl, Eo. reflexivity.
+Qed.
+
+Lemma InvD_init_delitem hpf s g key : InvD hpf s -> InvD hpf (fst (init_delitem s g key)).
+Proof.
+  intros HD. unfold init_delitem. destruct (init_get _ key) as [v|] eqn:E; [|assumption].
+  apply init_get_In in E. apply InvD_init_unbind; assumption.
+Qed.
+
+Lemma InvD_init_bind hpf s g key v l' : InvD hpf s -> vinit s v = false -> vname s v = Some key -> key <> NEmpty ->
+  gcheck s g v = true -> hpf v = false ->
+  (forall k' x, In (k', x) l' <-> (k' = key /\ x = v) \/ In (k', x) (inits s g)) -> NoDup (map fst l') ->
+  InvD hpf (set_inits (init_own s g v) g l').
+Proof.
+  intros HD Hvi Hnm Hk Hg Hp Hl Hnd. pose proof HD as (H4i & H4o & (H5a & H5b & H5c) & H7 & H6).
+  assert (Hgv : vgraph s v = None \/ vgraph s v = Some g).
+  { unfold gcheck in Hg. destruct (vgraph s v); [right; apply Nat.eqb_eq in Hg; congruence|left; reflexivity]. }
+  assert (HI4 : forall k', I4 k' (set_inits (init_own s g v) g l')).
+  { intros k'. pose proof (I4_any k' hpf s HD) as [Ha Hb]. split.
+    - intros x g0. unfold init_own. autorewrite with rd. destruct (Nat.eqb_spec v x) as [<-|]; [|apply Ha].
+      rewrite <- Ha. destruct Hgv as [Hn|Hs]; [|rewrite Hs; tauto].
+      apply H7 in Hn. unfold owned in Hn. apply orb_false_iff in Hn. destruct Hn as [Hn _]. apply orb_false_iff in Hn.
+      split; intros [H _]; destruct k', Hn; congruence.
+    - intros g0 x. unfold init_own. autorewrite with rd. apply Hb. }
+  split; [apply HI4|]. split; [apply HI4|]. split; [|split].
+  - split; [|split].
+    + intros g0 k' x. unfold init_own. autorewrite with rd.
+      assert (Hold : In (k', x) (inits s g0) -> vname s x = Some k' /\
+                (if v =? x then true else vinit s x) = true /\ (if v =? x then Some g else vgraph s x) = Some g0 /\ k' <> NEmpty).
+      { intros Hx. destruct (H5a _ _ _ Hx) as (A & B & C & D). destruct (Nat.eqb_spec v x) as [<-|]; [congruence|auto]. }
+      destruct (Nat.eqb_spec g g0) as [<-|]; [|exact Hold]. rewrite Hl. intros [[-> ->]|Hx]; [|auto].
+      rewrite Nat.eqb_refl. auto.
+    + intros g0. unfold init_own. autorewrite with rd. destruct (g =? g0); [assumption|apply H5b].
+    + intros x. unfold init_own. autorewrite with rd. destruct (Nat.eqb_spec v x) as [<-|Hne].
+      * intros _. exists g, key. autorewrite with rd. rewrite Nat.eqb_refl. apply Hl. auto.
+      * intros Hx. destruct (H5c x Hx) as (g0 & k0 & Hx0). exists g0, k0. autorewrite with rd.
+        destruct (Nat.eqb_spec g g0) as [<-|]; [apply Hl; auto|assumption].
+  - intros x. unfold owned, init_own. autorewrite with rd. destruct (Nat.eqb_spec v x) as [<-|]; [|apply H7].
+    rewrite orb_true_r. split; discriminate.
+  - intros x. unfold init_own. autorewrite with rd. destruct (Nat.eqb_spec v x) as [<-|]; [auto|apply H6].
+Qed.
+
+Lemma vgraph_init_disown s v x : vgraph (init_disown s v) x = vgraph s x \/ vgraph (init_disown s v) x = None.
+Proof.
+  unfold init_disown, maybe_release. destruct (owned _ _); autorewrite with rd; auto. destruct (v =? x); auto.
+Qed.
+Lemma set_inits_set_inits s g l1 l2 : set_inits (set_inits s g l1) g l2 = set_inits s g l2.
+Proof. unfold set_inits; simpl; rewrite sset_sset; reflexivity. Qed.
+Lemma init_own_set_inits s g v g' l : init_own (set_inits s g' l) g v = set_inits (init_own s g v) g' l.
+Proof. reflexivity. Qed.
